@@ -8,6 +8,7 @@ import Octo.Model.TriggerGroupBy
   `gb <cfg> K<nk> A<letters|-> E<idx|-> :: <stream>`   the real CustomTriggerGroupBy over a scripted source;
        records carry `nk` key columns followed by one argument column per aggregate letter
        (`c` = count, `s` = sum of ints); output `ok <emitted messages>` or `panic`
+  `sgb K<nk> A<letters|-> :: <stream>`   the real SimpleGroupBy (what the planner builds without a TRIGGER clause)
   `trig <cfg> :: ev ; ev ; …`   the real trigger object driven directly; events `K<k> v…` (KeyReceived),
        `W<ns>` (WatermarkReceived), `E` (EndOfStreamReached), `P` (Poll); output: one `P<m> K<k> v… …`
        group per poll, separated by ` ; `, or `panic`
@@ -151,8 +152,22 @@ def modelTrig (toks : List String) : String :=
     | none => "panic"
     | some polls => String.intercalate " ; " (polls.map encodePoll)
 
+/-- `sgb K<nk> A<letters|-> :: <stream>`: the real SimpleGroupBy; output = forwarded watermarks, then the rows
+    sorted by key (the hash map's iteration order is canonicalised on both sides) -/
+def parseSgb (toks : List String) : Option GbOp := parseGb ("TE" :: toks.take 2 ++ "E-" :: toks.drop 2)
+
+def modelSgb (toks : List String) : String :=
+  match parseSgb toks with
+  | none => "bad-op"
+  | some op =>
+    if (recs op.stream).all (fun r => op.conf.recOk r.vals) then
+      let out := simpleRun op.conf op.stream
+      if out.isEmpty then "ok" else "ok " ++ encodeMsgs out
+    else "panic"
+
 def model (toks : List String) : String :=
   match toks with
+  | "sgb" :: rest => modelSgb rest
   | "gb" :: rest => modelGb rest
   | "trig" :: rest => modelTrig rest
   | _ => "bad-op"
